@@ -74,6 +74,8 @@ class Ctx:
             for l in bad:
                 if 'capsites' in l.lower():
                     scope |= {'C07', 'C08'}
+                elif 'splitsites' in l.lower():
+                    scope |= {'C16', 'C08'}
                 elif 'allocsites' in l.lower():
                     m = re.search(r'unsupported \[([C0-9 ]+)\]', l)
                     scope |= set(m.group(1).split()) if m else {'C01', 'C02', 'C13', 'C10', 'C12', 'C05', 'C03'}
